@@ -23,7 +23,8 @@ Http(h) == [i \in 1..Len(h) |-> [verb |-> h[i].verb, url |-> h[i].url, ctype |->
 O == [udsrc |-> T.udsrc, node |-> T.node, node_at |-> T.node_at, node_n |-> T.node_n,
       node_url |-> T.node_url, rootvia |-> T.rootvia, root_url |-> T.root_url, http |-> Http(T.http),
       ud_sent |-> T.ud_sent, att_file |-> T.att_file, contacted |-> T.contacted,
-      g_err |-> T.g_err, v_err |-> T.v_err, sigsite |-> T.sigsite, sigclass |-> T.sigclass, digsite |-> T.digsite, digclass |-> T.digclass,
+      g_err |-> T.g_err, v_err |-> T.v_err, tz |-> T.tz, when_who |-> T.when_who, when_kind |-> T.when_kind,
+      sigsite |-> T.sigsite, sigclass |-> T.sigclass, digsite |-> T.digsite, digclass |-> T.digclass,
       hist |-> T.hist, prev_ok |-> T.prev_ok, dev_prev |-> Dev(T.dev_prev),
       earlier_before |-> T.earlier_before, earlier_after |-> T.earlier_after,
       verify_prev |-> T.verify_prev, printed_prev |-> Prn(T.printed_prev),
